@@ -12,6 +12,11 @@ func Assert_is_notset_Validate(args []value.Value) error {
 	if len(args) < 1 || len(args) > 2 {
 		return errors.ArgumentNotInRange(Assert_is_notset_Name, 1, 2, args)
 	}
+	if len(args) == 2 {
+		if args[1].Type() != value.StringType {
+			return errors.TypeMismatch(Assert_is_notset_Name, 2, value.StringType, args[1].Type())
+		}
+	}
 
 	return nil
 }
@@ -23,8 +28,8 @@ func Assert_is_notset(ctx *context.Context, args ...value.Value) (value.Value, e
 
 	// Check custom message
 	var message string
-	if len(args) == 3 {
-		message = value.Unwrap[*value.String](args[2]).Value
+	if len(args) == 2 {
+		message = value.Unwrap[*value.String](args[1]).Value
 	} else {
 		message = "Value isn't NotSet"
 	}
